@@ -691,7 +691,7 @@ func TestSizeLimit(t *testing.T) {
 // small alphabet, extended by every frame of a 256-frame grid that is invalid
 // after it, both sides, extended or not.
 func TestSmallScopeExhaustive(t *testing.T) {
-	depth := hx.Pick(2, 3)
+	depth := hx.Pick(2, 4)
 	var n int64
 	idx := 0
 	failed := false
